@@ -312,7 +312,7 @@ META = {
                    "distinct): every strip/split/startswith/replace the parser performs on them is decided by the solver, so the parsed relation is "
                    "proved equal to the description for all such texts (comment lines, blank lines, short rows, quoted fields, header override, process_fns).",
     'encoded': {'biom/table.py': ['add_metadata', 'del_metadata', '_cast_metadata', 'metadata', 'exists', 'index'],
-                'biom/parse.py': ['from_file'], 'biom/cli/metadata_adder.py': ['add_metadata (click callback)', '_add_metadata', '_split_on_semicolons', '_int', '_float']},
+                'biom/parse.py': ['from_file'], 'biom/cli/metadata_adder.py': ['add_metadata', '_add_metadata', '_split_on_semicolons', '_int', '_float']},
     'bounds': {'quick': {'tables': '2x3', 'mapping files': '2 rows x 2 columns of symbolic fields, |field| <= 4'},
                'thorough': {'tables': '2x3, 3x2', 'mapping files': '3x2, 2x3'}},
     'outside': ['field text outside the domain regex (tabs, quotes, leading #, outer blanks)', 'strings longer than 4 characters', 'suppress_stripping / strip_quotes=False',
